@@ -316,7 +316,8 @@ def classify(case, out):
     return f
 
 
-def run_property(ctx, pid, fail_bits, mismatch_bits, dirs=('fwd', 'bwd'), extra=None, n_quick=260, n_thorough=4000):
+def run_property(ctx, pid, fail_bits, mismatch_bits, dirs=('fwd', 'bwd'), extra=None, n_quick=260, n_thorough=4000,
+                 extra_cases=None):
     """Generic body of a scheduler property check.
     fail_bits: oracle bits whose being set means the property fails on the implementation's output;
     mismatch_bits: correspondence bits that this property ties to the model."""
@@ -325,6 +326,8 @@ def run_property(ctx, pid, fail_bits, mismatch_bits, dirs=('fwd', 'bwd'), extra=
     n_corpus = len(cases)
     while len(cases) < n_corpus + n:
         cases.append(gen_case(ctx.rng, None if len(dirs) == 2 else dirs[0]))
+    if extra_cases:      # a property's own additional stream (callable: drawn after the common stream)
+        cases += list(extra_cases(ctx) if callable(extra_cases) else extra_cases)
     outs, kept, codes = evaluate(ctx, cases)
     dist = {'offgrid_discarded': len(cases) - len(kept), 'illformed_discarded': 0, 'returned': 0, 'runtime_error': 0, 'crash': 0}
     feats = {}
